@@ -39,7 +39,7 @@ CHECKS = {
     'C11': dict(text='Function contracts (goto-instrument --dfcc --enforce-contract, callees replaced by their contracts) on stdx::cmp_equal/not_equal/less/greater/less_equal/'
                      'greater_equal and in_range: equal to the mathematical relation for all values of each type pair; checked_int_pow<uintmax_t>: loop contract proving that no '
                      'multiplication wraps and no division by zero happens on any path, and (lemma-instance obligation) that the outcome is OK exactly when base^exp fits and the value is then base^exp.',
-                note=TRUST + 'The arithmetic lemmas of the exactness obligation are checked by Lean 4 + Mathlib in the same run. NOT decided: checked_int_pow<intmax_t>, product, root, long double evaluation, '
+                note=TRUST + 'The arithmetic lemmas of the exactness obligation are checked by Lean 4 + Mathlib in the same run. NOT decided: product, root, long double evaluation, '
                              'compile-time classification (representable_in, is_integer, ...).', ref='5 (C11), 10.1',
                 tech='CBMC function contracts via goto-instrument --dfcc (enforce + replace-call-with-contract); loop-contract VCs generated by ll2c for the SMT route; '
                      'nonlinear arithmetic as uninterpreted functions + instances of Lean-checked lemmas'),
